@@ -296,10 +296,10 @@ func (ap *AP) S(size int, slices ...Slice) (newAP AP, ndStart, ndEnd int, err er
 				offset++
 			}
 		}
-		if len(newShape) == 0 {
-			// every axis was cut down to one element: the view is a scalar. Its window must then hold
-			// exactly that element (a step can leave trailing elements in it), because scalar-ness
-			// is judged by the length of the window elsewhere.
+		if newShape.TotalSize() == 1 {
+			// every axis was cut down to one element. The window must then hold exactly that
+			// element (a step can leave trailing elements in it), because scalar-ness is judged
+			// by the length of the window elsewhere.
 			ndEnd = ndStart + 1
 		}
 
